@@ -34,6 +34,17 @@ package kademlia
 //@ axiom rc-step: forall s *pslice.PSlice, b int, j int, k int :: 0 <= b && b < len(s.peers) && 0 <= j && k == j + 1 && k <= len(s.peers[b]) ==> rc(s, b, k) == rc(s, b, j) + ite(unreach(s.peers[b][j]), 0, 1)
 //@ spec func full(s *pslice.PSlice, b int) int = rc(s, b, len(s.peers[b]))
 
+//@ # above(s, b): how many peers of the bins b, b+1, ... are reachable
+//@ spec func above(s *pslice.PSlice, b int) int
+//@ axiom above-the-last-bin: forall s *pslice.PSlice :: above(s, len(s.peers)) == 0
+//@ axiom above-step: forall s *pslice.PSlice, b int, c int :: 0 <= b && c == b + 1 && c <= len(s.peers) ==> above(s, b) == above(s, c) + full(s, b)
+//@ # two lemmas about these counting functions (each by induction over the second argument; not
+//@ # machine-checked here): a prefix of a bin holds at most as many reachable peers as the bin,
+//@ # and a deeper suffix of the bins at most as many as a shallower one
+//@ axiom rc-monotone: forall s *pslice.PSlice, b int, j int :: 0 <= b && b < len(s.peers) && 0 <= j && j <= len(s.peers[b]) ==> 0 <= rc(s, b, j) && rc(s, b, j) <= full(s, b)
+//@ axiom rc-before-a-reachable-peer: forall s *pslice.PSlice, b int, j int :: 0 <= b && b < len(s.peers) && 0 <= j && j < len(s.peers[b]) && !unreach(s.peers[b][j]) ==> rc(s, b, j) + 1 <= full(s, b)
+//@ axiom above-monotone: forall s *pslice.PSlice, b int, c int :: 0 <= b && b <= c && c <= len(s.peers) ==> above(s, b) >= above(s, c)
+
 //@ # neighbourhood depth.  The two passes over the bins (EachBinRev, EachBin) and the visitors are
 //@ # executed on their bodies: the loops below are those of the two iteration methods.
 //@ func recalcDepth
@@ -43,6 +54,7 @@ package kademlia
 //@   ensures never-above-the-radius: result <= radius
 //@   ensures zero-with-at-most-three-peers: plen(peers) <= 3 ==> result == 0
 //@   ensures shallower-bins-hold-the-quick-saturation-number-of-reachable-peers: forall b :: 0 <= b && b < int(result) ==> full(peers, b) >= quickSaturationPeers
+//@   ensures positive-depth-leaves-three-reachable-peers-at-or-beyond-it: int(result) > 0 ==> above(peers, int(result)) >= 3
 //@   ensures never-above-an-empty-bin: forall b :: 0 <= b && b < peers.maxBins && len(peers.peers[b]) == 0 ==> int(result) <= b
 //@   loop PSlice.EachBinRev.1 invariant shapeP(s) && 0 <= i && i <= s.maxBins
 //@   loop PSlice.EachBinRev.2 invariant shapeP(s) && 0 <= i && i < s.maxBins && 0 - 1 <= rangeindex && rangeindex < len(peers)
@@ -60,3 +72,7 @@ package kademlia
 //@   loop PSlice.EachBinRev.2 invariant int(shallowestUnsaturated) < i ==> binCount == full(s, int(shallowestUnsaturated)) && rc(s, i, rangeindex + 1) == 0 && (forall b :: int(shallowestUnsaturated) < b && b < i ==> full(s, b) == 0)
 //@   loop PSlice.EachBinRev.2 invariant forall b :: 0 <= b && b < int(shallowestUnsaturated) ==> full(s, b) >= quickSaturationPeers
 //@   loop PSlice.EachBinRev.2 invariant peers == s.peers[i]
+//@   # second pass (deepest bin first): the reachable peers counted so far are those of the deeper bins
+//@   loop PSlice.EachBin.1 invariant candidate == 0 && peersCtr < 3 && peersCtr == above(s, i + 1)
+//@   loop PSlice.EachBin.2 invariant candidate == 0 && peersCtr < 3 && peersCtr == above(s, i + 1) + rc(s, i, rangeindex + 1)
+//@   loop PSlice.EachBin.2 invariant peers == s.peers[i]
